@@ -230,11 +230,9 @@ func runC09(d c09Desc) Case {
 	for i, dd := range w.reg {
 		var ks []string
 		for fk := range dd.Fields().All() {
-			for _, ke := range keyPool {
-				if ke.Key == fk {
-					ks = append(ks, ukeyCoq(ke))
-					addT(ke)
-				}
+			if ke, ok := entryForKey(fk); ok {
+				ks = append(ks, ukeyCoq(ke))
+				addT(ke)
 			}
 		}
 		udefs = append(udefs, fmt.Sprintf("{| ud_def := (define %s %s %s [ONoTrace]); ud_keys := %s |}", cN(1000+i), cNat(i), cStr(string(dd.Kind())), cList(ks)))
@@ -357,4 +355,20 @@ func collectVtab(d *unmarshaler.DecodedData, targets []reflect.Type, vtab map[st
 	for _, c := range d.Causes {
 		collectVtab(c, targets, vtab, unks)
 	}
+}
+
+// entryForKey finds the pool entry of a field key; built-in keys first (two of them also
+// sit in keyPool so that programs can set them).
+func entryForKey(fk errdef.FieldKey) (keyEntry, bool) {
+	for _, k := range builtinKeys {
+		if k.Key == fk {
+			return k, true
+		}
+	}
+	for _, k := range keyPool {
+		if k.Key == fk {
+			return k, true
+		}
+	}
+	return keyEntry{}, false
 }
